@@ -25,10 +25,10 @@ def gen_cases(rng, tier):
         m = c["meta"]
         lo, hi = m["range"]
         sc = c["scalar"]
-        ops = [["observe"], ["tables"]]
+        ops = [["observe"], ["tables"], ["svd"]]
         for _ in range(2):
             a = [hx(v, sc) for v in distinct_params(rng, m["P"], lo, hi)]
-            ops += [["set", a], ["observe"], ["tables"]]
+            ops += [["set", a], ["observe"], ["tables"], ["svd"]]
         c["ops"] = ops
         cases.append(c)
     return cases
@@ -45,6 +45,8 @@ def main(tier, seed, replay=None):
         c["id"] = i
     results = run_harness(binp, "scenario", cases, workdir, timeout_ms=20000)
     terms, idx = [], []
+    sterms, sidx = [], []
+    svd_budget = 60 if tier == "quick" else 2000
     for c, r in zip(cases, results):
         if r.get("panic") is not None or r.get("timeout") or r["head"].get("build") != "ok":
             run.violation("construction / update panicked, hung or failed", {"case": c, "result": r})
@@ -60,8 +62,23 @@ def main(tier, seed, replay=None):
                 if t is not None:
                     terms.append(t)
                     idx.append((c, r, k))
+                if k + 2 < len(steps) and steps[k + 2]["op"] == "svd" and (len(sterms) < svd_budget):
+                    t2 = num.svd_term(c, ob, tb, steps[k + 2]["v"])
+                    if t2 is not None:
+                        sterms.append(t2)
+                        sidx.append((c, r, k))
             k += 1
     rterms, rhist = states.run_rankdef(run, "C01", binp, rng, 24 if tier == "quick" else 500, (3, 8))
+    # the implementation's own factors: contract svd_spec (orthonormal, reconstructing) and the code-shaped truncated solve
+    scodes = coq_eval("C01", num.HEADER, sterms, per_file_timeout=1800)
+    shist = {}
+    for (c, r, k), code, t in zip(sidx, scodes, sterms):
+        shist[code] = shist.get(code, 0) + 1
+        if code != 0:
+            bad = code in (40, 41, 42, 43)
+            run.violation("state #%d, cached SVD factors: %s" % (k, num.SVD_CODES.get(code, "code %d" % code)),
+                          {"case": c, "step": k, "observe": r["steps"][k]["v"], "svd": r["steps"][k + 2]["v"], "coq_term": t},
+                          key=("nalgebra-svd-not-a-decomposition" if code == 42 else None))
     codes = coq_eval("C01", num.HEADER, terms, per_file_timeout=1800)
     hist = {}
     nskip = 0
@@ -85,6 +102,7 @@ def main(tier, seed, replay=None):
                 "threshold: minimum-norm minimiser from a checked full-rank factorisation, finiteness; non-trivial = compared "
                 "(not skipped as ill-conditioned)",
         "code_histogram": {str(k): v for k, v in hist.items()}, "skipped_ill_conditioned": nskip,
+        "svd_factor_replays": len(sterms), "svd_factor_code_histogram": {str(k): v for k, v in shist.items()},
         "rank_deficient_states": len(rterms), "rank_deficient_code_histogram": {str(k): v for k, v in rhist.items()}})
     run.samples = [{"ctor": c["ctor"], "scalar": c["scalar"], "meta": c["meta"], "step": k} for c, r, k in idx[:3]]
     run.assumptions = ["rounding error of nalgebra's SVD solve stays below 64 u kappa2 sqrt(N M) (engineering margin, see DESIGN.md §4.1)"]
